@@ -77,6 +77,16 @@ let handle_time op args =
     let t = TimestampModel.as_time (z_of_hex s) (z_of_hex n) in
     [hex_of_z (TimestampModel.time_unix t); hex_of_z t.TimestampModel.t_nsec]
   | "tscheck", [s; n] -> [hex_of_z (TimestampModel.ts_check (z_of_hex s) (z_of_hex n))]
+  (* Tier T: the translated Go source (Gen/KnownGo.v); first token = receiver is nil *)
+  | "go_asdur", [nl; s; n] -> [hex_of_z (KnownGo.go_dur_Duration_AsDuration (bool_of_tok nl) (z_of_hex s) (z_of_hex n))]
+  | "go_durnew", [d] -> let (s, n) = KnownGo.go_dur_New (z_of_hex d) in [hex_of_z s; hex_of_z n]
+  | "go_durcheck", [nl; s; n] ->
+    [hex_of_z (KnownGo.go_dur_Duration_check (bool_of_tok nl) (z_of_hex s) (z_of_hex n));
+     tok_of_bool (KnownGo.go_dur_Duration_IsValid (bool_of_tok nl) (z_of_hex s) (z_of_hex n))]
+  | "go_tsnew", [u; ns] -> let (s, n) = KnownGo.go_ts_New (z_of_hex u) (z_of_hex ns) in [hex_of_z s; hex_of_z n]
+  | "go_tscheck", [nl; s; n] ->
+    [hex_of_z (KnownGo.go_ts_Timestamp_check (bool_of_tok nl) (z_of_hex s) (z_of_hex n));
+     tok_of_bool (KnownGo.go_ts_Timestamp_IsValid (bool_of_tok nl) (z_of_hex s) (z_of_hex n))]
   | _ -> failwith ("known: unknown op " ^ op)
 
 (* ---- JSON forms (C23) ---- *)
@@ -105,7 +115,8 @@ let handle_json op args =
 let handle op args =
   match op with
   | "mdur" | "udur" | "mfm" | "ufm" | "mts" | "uts" -> handle_json op args
-  | "asdur" | "durnew" | "durcheck" | "tsnew" | "astime" | "tscheck" -> handle_time op args
+  | "asdur" | "durnew" | "durcheck" | "tsnew" | "astime" | "tscheck"
+  | "go_asdur" | "go_durnew" | "go_durcheck" | "go_tsnew" | "go_tscheck" -> handle_time op args
   | _ -> handle_fm op args
 
 let () = register "known" handle
